@@ -117,6 +117,7 @@ type Scn struct {
 	KeepImages bool
 
 	WrapClient func(inner litestream.ReplicaClient) litestream.ReplicaClient
+	ExtOp      func(s *Scn, name, arg string) (Outcome, bool) // check-defined operations
 	User       any // per-scenario state of the running check
 	LedgerRoot []uint32 // seq root page in effect when the ledger entry was recorded
 	lastTick   int64
